@@ -260,6 +260,15 @@ def run(c):
     if not ok:
         c.report("extraction/oracle build failed: " + out[-800:], {"machinery": "oracle"}, no_input=True)
         return
+    # rich synthetic documents: every member of every registered type populated (reflection over the Go types of the
+    # repository under test), the invoice and order also under every addon; their mutations are sampled by C14_RICH_STRIDE
+    rich = os.path.join(WORK, "c14rich")
+    rc, out, err = harness("c14rich", rich)
+    GOENV["C14_EXTRA_DIR"] = rich
+    GOENV["C14_RICH_STRIDE"] = "80" if quick else "1"          # per-addon variants (the slice taken rotates with the seed)
+    GOENV["C14_RICH_BASE_STRIDE"] = "16" if quick else "1"
+    c.cov["rich_documents"] = {"files": (out or "").strip(), "mutation_stride_addon_variants": GOENV["C14_RICH_STRIDE"],
+                               "mutation_stride_base": GOENV["C14_RICH_BASE_STRIDE"]}
     # model vs implementation on the cores that are callable from outside (header validation)
     tie_cores(c, quick)
     run_corpus(c)
@@ -308,7 +317,7 @@ def run(c):
     c.cov["streams"]["mutation-sweep"]["nontrivial"] = nontrivial
     c.cov["rule"] = ("inputs = every single-member mutation (delete, null, retype to number/string/array/object, duplicate "
                      "array element, [null], empty/huge numbers and strings, unknown currency/country/regime/addon codes, "
-                     "empty/null signatures, nil head links/stamps, deep nesting) of every example output document, the same mutations applied to the header carried INSIDE a real signature (forged-* kinds: payload signed by the harness key, envelope header rich in stamps/links/tags/meta; verified with, without and with explicit keys), plus "
+                     "empty/null signatures, nil head links/stamps, deep nesting) of every example output document AND of rich synthetic documents (every member of every registered type populated by reflection; invoice and order also under every addon; their mutations sampled 1 in C14_RICH_STRIDE in the quick tier, all in the thorough tier), the same mutations applied to the header carried INSIDE a real signature (forged-* kinds: payload signed by the harness key, envelope header rich in stamps/links/tags/meta; verified with, without and with explicit keys), plus "
                      "seeded random bytes/JSON/YAML/corruptions; each is a distinct (document, member, mutation) triple by "
                      "construction; non-trivial = inputs that parse and reach calculation (the others exercise the parser only)")
     judge_records(c, recs, "sweep")
